@@ -114,7 +114,11 @@ pub enum Case {
     Ident { ident: String, role: String },
     TypeVariant { ty: String, site: String, depth: usize },
     ItemShapes,
+    /// `<receiver>.<method>(<n arguments>)` with the name argument in one of three forms
+    EmitCall { method: String, nargs: usize, name_form: usize, receiver: usize },
 }
+
+pub const EMIT_RECEIVERS: [&str; 5] = ["app", "window", "self.app", "router.bus()", "other"];
 
 fn rust_str_body(s: &str) -> String {
     // LETTERS already carry their own escapes for quote and backslash
@@ -182,6 +186,19 @@ impl Case {
                     "channel" => s.push_str(&format!("#[tauri::command]\npub fn cmd<'a>(ch: Channel<{}>) -> bool {{ true }}\n", t)),
                     _ => s.push_str(&format!("#[tauri::command]\npub fn anchor() -> bool {{ true }}\npub fn fire<'a>(app: &AppHandle, p: {}) {{ app.emit(\"ev\", p).unwrap(); }}\n", t)),
                 }
+            }
+            Case::EmitCall { method, nargs, name_form, receiver } => {
+                let name = ["\"ev-name\"", "EVENT_NAME", "&format!(\"ev-{}\", 1)"][*name_form % 3];
+                let pool = ["\"main\"", name, "Item { id: 1 }", "extra"];
+                // emit: name first; emit_to: target first, then the name
+                let args: Vec<&str> = if method == "emit" { pool[1..].iter().chain(pool[..1].iter()).copied().take(*nargs).collect() } else { pool.iter().copied().take(*nargs).collect() };
+                s.push_str(&gen::leaf_defs());
+                s.push_str(&format!(
+                    "#[tauri::command]\npub fn anchor() -> bool {{ true }}\npub struct Holder {{ app: AppHandle }}\nimpl Holder {{ pub fn go(&self) {{}} }}\npub fn fire(app: &AppHandle, window: &tauri::Window, router: &Router, other: &Bus, extra: i32) {{\n    {}.{}({}).unwrap();\n}}\n",
+                    EMIT_RECEIVERS[*receiver % EMIT_RECEIVERS.len()].replace("self.app", "holder.app"),
+                    method,
+                    args.join(", ")
+                ));
             }
             Case::ItemShapes => {
                 s.push_str(
@@ -257,6 +274,12 @@ pub fn emitter(app: &AppHandle) {
             }
             Case::ItemShapes => {
                 m.insert("family".into(), "item-shapes".into());
+            }
+            Case::EmitCall { method, nargs, name_form, receiver } => {
+                m.insert("family".into(), "emit-call".into());
+                m.insert("call".into(), format!("{}/{}", method, nargs));
+                m.insert("name_form".into(), name_form.to_string());
+                m.insert("receiver".into(), EMIT_RECEIVERS[*receiver % EMIT_RECEIVERS.len()].into());
             }
         }
         m
@@ -436,6 +459,31 @@ pub fn run(tier: Tier) -> CheckResult {
             }
         }
     }
+    // non-ASCII project type names at every constructor position (map key, first / later tuple
+    // element, set element, Result arms, nested once more) of every site
+    {
+        use crate::gen::RTy;
+        let leaves = [RTy::named("Qualité"), RTy::named("Ключ"), RTy::named("名前"), RTy::named("Région")];
+        let mut seen = BTreeSet::new();
+        for t in gen::enumerate_spines(&leaves, &[RTy::prim("u32")], 2) {
+            if t.depth() == 0 || !seen.insert(t.to_rust()) {
+                continue;
+            }
+            for site in ["param", "return", "field", "channel", "event"] {
+                cases.push(Case::TypeVariant { ty: t.to_rust(), site: site.into(), depth: 0 });
+            }
+        }
+    }
+    // every arity of emit / emit_to on every receiver form
+    for method in ["emit", "emit_to", "emit_filter"] {
+        for nargs in 0..=4usize {
+            for name_form in 0..3usize {
+                for receiver in 0..EMIT_RECEIVERS.len() {
+                    cases.push(Case::EmitCall { method: method.into(), nargs, name_form, receiver });
+                }
+            }
+        }
+    }
     cases.push(Case::ItemShapes);
     let results: Vec<Option<(Option<(bool, String)>, bool)>> = cases.par_iter().map(|c| if deadline.passed() { None } else { Some(eval_inproc(c)) }).collect();
     let mut evaluations = 0u64;
@@ -581,7 +629,7 @@ pub fn run(tier: Tier) -> CheckResult {
         {"TypeVariant": {"ty": "for<'a> fn(&'a str) -> &'a str", "site": "event", "depth": 5}},
         {"corpus": "/repo/src/analysis/mod.rs"}
     ]));
-    res.coverage.set("rule", format!("(i) every string of <= {} letters over a 21-letter alphabet (ASCII, space, 2/3/4-byte characters, escaped quote, escaped backslash, parentheses, comma, '=', and the words the scanners look for) injected at 9 attribute-string positions; 40 raw attribute token forms (empty, missing values, non-literal values, duplicates, raw strings, cfg_attr) on fields, structs, variants, parameters and fns; (ii) 14 odd identifiers in 8 roles; (iii) 24 exotic syn::Type forms at the five sites wrapped to depth 0..5 in process, nesting depth up to {} in a subprocess; an item-shape zoo (tuple/unit/generic structs, data-carrying and tagged enums, unions, trait and impl methods, pattern parameters, qualifiers, emit calls of every arity and payload expression); (iv) every .rs file under /repo{} as single-file projects through the real binary (batched, bisected on exit status outside {{0,1}}), every line-boundary truncation of tests/fixtures next to a valid file; oracle: no panic (in process: catch_unwind, re-confirmed through the binary), exit status in {{0,1}}, and an unparsable file leaves the output of the valid file unchanged.", if tier == Tier::Quick { 2 } else { 3 }, if tier == Tier::Quick { 256 } else { 2000 }, if tier == Tier::Thorough { " and every .rs file in ~/.cargo/registry/src" } else { "" }));
+    res.coverage.set("rule", format!("(i) every string of <= {} letters over a 21-letter alphabet (ASCII, space, 2/3/4-byte characters, escaped quote, escaped backslash, parentheses, comma, '=', and the words the scanners look for) injected at 9 attribute-string positions; 40 raw attribute token forms (empty, missing values, non-literal values, duplicates, raw strings, cfg_attr) on fields, structs, variants, parameters and fns; (ii) 14 odd identifiers in 8 roles; (iii) 32 exotic syn::Type forms at the five sites wrapped to depth 0..5 in process, four non-ASCII project type names at every constructor position (map key / value, each tuple element, set element, Result arms, nested once more) of the five sites, every arity 0..4 of emit / emit_to / emit_filter x 3 forms of the name argument x 5 receiver forms, nesting depth up to {} in a subprocess; an item-shape zoo (tuple/unit/generic structs, data-carrying and tagged enums, unions, trait and impl methods, pattern parameters, qualifiers, emit calls of every arity and payload expression); (iv) every .rs file under /repo{} as single-file projects through the real binary (batched, bisected on exit status outside {{0,1}}), every line-boundary truncation of tests/fixtures next to a valid file; oracle: no panic (in process: catch_unwind, re-confirmed through the binary), exit status in {{0,1}}, and an unparsable file leaves the output of the valid file unchanged.", if tier == Tier::Quick { 2 } else { 3 }, if tier == Tier::Quick { 256 } else { 2000 }, if tier == Tier::Thorough { " and every .rs file in ~/.cargo/registry/src" } else { "" }));
     res.assumptions = vec!["totality is claimed only over these finite sets".into()];
     res
 }
